@@ -1,0 +1,7 @@
+//go:build !verif
+
+package traversal
+
+// verifPoint marks a named point of the lookup's run loop. It does nothing in normal builds; builds
+// with the "verif" tag can install a callback there (see verif_point_on.go).
+func verifPoint(string) {}
